@@ -110,4 +110,126 @@ def leaves : List Elem → List Task
   | .leaf t :: es => t :: leaves es
   | .par ts _ :: es => ts ++ leaves es
 
+/-! ## the specification reader in front of the filter
+
+`TrackSpecificationReader.parse_operations / parse_operation / parse_task / parse_parallel /
+_create_challenges`, as far as they decide which NAME, which OPERATION TYPE and which TAGS a task has —
+the three things a filter looks at.  The `operations` block is read once into a table; every task of
+every challenge is resolved against that same table; the table is only read after that. -/
+
+/-- the value of `"operation"` in a task (or an entry of the `operations` block) -/
+inductive OpRef
+  | plain (s : Str)                               -- "operation": "force-merge"
+  | inline (name : Option Str) (opType : Str)     -- "operation": {"name": …, "operation-type": …, …}
+deriving Repr, DecidableEq
+
+/-- what `parse_operation` returns, reduced to name and type (the type is kept as written) -/
+structure OpDef where
+  name : Str
+  opType : Str
+deriving Repr, DecidableEq
+
+inductive ReadErr
+  | trackSyntaxError
+deriving Repr, DecidableEq
+
+/-- `parse_operation`: a plain string is name and type at once; without `name` the type is the name -/
+def parseOperation : OpRef → OpDef
+  | .plain s => ⟨s, s⟩
+  | .inline (some n) ty => ⟨n, ty⟩
+  | .inline none ty => ⟨ty, ty⟩
+
+/-- `name in ops` / `ops[name]` -/
+def lookupOp (ops : List OpDef) (n : Str) : Option OpDef := ops.find? (fun d => d.name == n)
+
+/-- `parse_operations`: the table in the order of the block; a second operation of a name is an error -/
+def parseOperationsFrom (acc : List OpDef) : List OpRef → Except ReadErr (List OpDef)
+  | [] => .ok acc
+  | r :: rs =>
+    let d := parseOperation r
+    if (lookupOp acc d.name).isSome then .error .trackSyntaxError else parseOperationsFrom (acc ++ [d]) rs
+
+def parseOperations (block : List OpRef) : Except ReadErr (List OpDef) := parseOperationsFrom [] block
+
+/-- `parse_task`, first statement: a plain string that names an entry of the table is that entry;
+    anything else is an operation of its own (`parse_operation`) and is NOT put into the table -/
+def resolveOp (ops : List OpDef) : OpRef → OpDef
+  | .plain s =>
+    match lookupOp ops s with
+    | some d => d
+    | none => parseOperation (.plain s)
+  | .inline n ty => parseOperation (.inline n ty)
+
+/-- the value of `"tags"` in a task -/
+inductive TagsSpec
+  | absent
+  | one (s : Str)            -- "tags": "setup"
+  | many (l : List Str)      -- "tags": ["setup", "slow"]
+deriving Repr, DecidableEq
+
+/-- `Task.__init__`: one string is the list of that string; nothing / an empty list is no tag -/
+def normTags : TagsSpec → List Str
+  | .absent => []
+  | .one s => [s]
+  | .many l => l
+
+structure TaskSpec where
+  id : Nat
+  name : Option Str          -- "name" of the task; default: the name of its operation
+  op : OpRef
+  tags : TagsSpec
+deriving Repr, DecidableEq
+
+inductive ElemSpec
+  | leaf (t : TaskSpec)
+  | par (ts : List TaskSpec) (payload : Nat)
+deriving Repr, DecidableEq
+
+def readTask (ops : List OpDef) (s : TaskSpec) : Task :=
+  let d := resolveOp ops s.op
+  ⟨s.id, s.name.getD d.name, d.opType, normTags s.tags⟩
+
+def readElem (ops : List OpDef) : ElemSpec → Elem
+  | .leaf t => .leaf (readTask ops t)
+  | .par ts p => .par (ts.map (readTask ops)) p
+
+def readSchedule (ops : List OpDef) (es : List ElemSpec) : List Elem := es.map (readElem ops)
+
+def specLeaves : List ElemSpec → List TaskSpec
+  | [] => []
+  | .leaf t :: es => t :: specLeaves es
+  | .par ts _ :: es => ts ++ specLeaves es
+
+def distinct : List Str → Bool
+  | [] => true
+  | x :: xs => !xs.contains x && distinct xs
+
+/-- one challenge: its schedule, refused if two of its tasks carry the same name -/
+def readChallenge (ops : List OpDef) (es : List ElemSpec) : Except ReadErr (List Elem) :=
+  let s := readSchedule ops es
+  if distinct ((leaves s).map (·.name)) then .ok s else .error .trackSyntaxError
+
+def readChallenges (ops : List OpDef) : List (List ElemSpec) → Except ReadErr (List (List Elem))
+  | [] => .ok []
+  | c :: cs =>
+    match readChallenge ops c with
+    | .error e => .error e
+    | .ok s =>
+      match readChallenges ops cs with
+      | .error e => .error e
+      | .ok ss => .ok (s :: ss)
+
+/-- the reader on a whole specification: `operations` block, then all challenges against ONE table -/
+def readTrack (block : List OpRef) (chs : List (List ElemSpec)) : Except ReadErr (List (List Elem)) :=
+  match parseOperations block with
+  | .error e => .error e
+  | .ok ops => readChallenges ops chs
+
+/-- the loader: read the specification, then `on_after_load_track` on every challenge -/
+def readAndFilter (block : List OpRef) (chs : List (List ElemSpec)) (exclude : Bool) (fs : List Filter) :
+    Except ReadErr (List (List Elem)) :=
+  match readTrack block chs with
+  | .error e => .error e
+  | .ok ss => .ok (ss.map (applyFilters exclude fs))
+
 end TrackFilter
